@@ -265,6 +265,8 @@ def norm_contract_sig(sig):
 
 def norm_real_sig(sig):
     sig = re.sub(r'\bpub\s*(\([^)]*\))?\s*', '', sig)
+    # rule D4: Verus does not accept `_` as a parameter pattern; the contract names it `_p`
+    sig = re.sub(r'([(,]\s*)_(\s*:)', r'\1_p\2', sig)
     return sig
 
 
@@ -582,6 +584,11 @@ def build_item(rel, kind, name, log):
     out = []
     for rm in re.finditer(r'#\[repr\([^\]]*\)\]', attrs):
         out.append(Line(rm.group(0), ('S', rel, line_of(S.text, loc['attrs_start']))))
+    dm = re.search(r'#\[derive\(([^\]]*)\)\]', attrs)
+    if dm:
+        keep = [d.strip() for d in dm.group(1).split(',') if d.strip() in ('Clone', 'Copy')]
+        if 'Copy' in keep:      # a non-Copy derived Clone gets no spec from Verus: see //@derive-clone
+            out.append(Line('#[derive(%s)]' % ', '.join(keep), ('S', rel, line_of(S.text, loc['attrs_start']))))
     ln = line_of(S.text, loc['start'])
     for t in text.split('\n'):
         t2 = re.sub(r'^(\s*)pub\s*(\([^)]*\))?\s+', r'\1', t)
@@ -615,6 +622,17 @@ class Unit:
                 ls, prov = build_item(srel, kind, name, self.rewrites)
                 self.lines += ls
                 self.prov.append(prov)
+            elif s.startswith('//@derive-clone'):
+                # the real type has #[derive(Clone)]; Verus gives non-Copy derives no spec, so the derive is
+                # replaced by an ASSUMED impl: clone() returns an equal value (rule D5)
+                tn = s.split()[1]
+                for t in ('impl Clone for %s {' % tn,
+                          '    #[verifier::external_body]',
+                          '    fn clone(&self) -> (r: Self)',
+                          '        ensures r == *self,',
+                          '    { unimplemented!() }',
+                          '}'):
+                    self.lines.append(Line(t, ('T', rel, no)))
             elif s.startswith('//@const'):
                 # `//@const <src> <NAME> <ensures-expr>`: the real initialiser expression verbatim, in
                 # Verus' `exec const .. ensures .. { expr }` form (rule D3)
